@@ -6,6 +6,7 @@ import (
 	storageerrors "github.com/formancehq/ledger/internal/storage/sqlutils"
 
 	ledger "github.com/formancehq/ledger/internal"
+	"github.com/formancehq/ledger/internal/verifhook"
 	"github.com/formancehq/stack/libs/go-libs/logging"
 )
 
@@ -25,10 +26,12 @@ func (e *executionContext) AppendLog(ctx context.Context, log *ledger.Log) (*led
 	logging.FromContext(ctx).WithFields(map[string]any{
 		"id": chainedLog.ID,
 	}).Debugf("Appending log")
+	verifhook.Yield(ctx, "append.chained")
 	done := make(chan struct{})
 	e.commander.Append(chainedLog, func() {
 		close(done)
 	})
+	verifhook.Yield(ctx, "append.handed")
 	return chainedLog, done, nil
 }
 
@@ -38,8 +41,10 @@ func (e *executionContext) run(ctx context.Context, executor func(e *executionCo
 			return nil, err
 		}
 		defer e.commander.referencer.release(referenceIks, ik)
+		verifhook.Yield(ctx, "run.ik.reserved")
 
 		chainedLog, err := e.commander.store.ReadLogWithIdempotencyKey(ctx, ik)
+		verifhook.Yield(ctx, "run.ik.checked")
 		if err == nil {
 			return chainedLog, nil
 		}
@@ -51,7 +56,9 @@ func (e *executionContext) run(ctx context.Context, executor func(e *executionCo
 	if err != nil {
 		return nil, err
 	}
+	verifhook.Block(ctx, "run.wait")
 	<-done
+	verifhook.Yield(ctx, "run.persisted")
 	logger := logging.FromContext(ctx).WithFields(map[string]any{
 		"id": chainedLog.ID,
 	})
